@@ -152,7 +152,7 @@ Definition c12_check (c : c12case) : bool :=
                   && spec_agree (member_objb re_frag_match env ds fvs) g end) msgs
   | C12Tree env s obs vals =>
       match write_schema env [] [70;111;111]%N s with
-      | Ok m => mtree_eqb_with c12_proj m obs
+      | Ok m => mtree_eqb_with c12_proj (c12_view m) obs
       | _ => false
       end &&
       forallb (fun p => match p with (mv, vd, g) =>
